@@ -190,9 +190,14 @@ CHECKS = {
          "from the tree each run; subtype_exact (compatible iff a common populated runtime value exists), structural corollaries; "
          "broadcast exact on constants, sound, raises iff impossible (lifting one-axis lemmas over ranks). CORRESPONDENCE: EXHAUSTIVE over "
          "a bounded domain enumerated inside Coq by the same index functions (72,989 types, 401^2 shape pairs, type pairs) via row "
-         "digests. ORACLE: numpy.broadcast_shapes, brute-force common-value search, real inline boundary.",
-    note=TB + "hash is oracle-only; exhaustive for the stated bounded domain.",
-    technique="Coq proof + exhaustive digest correspondence over a bounded domain + regenerated spelling table",
+         "digests. TRANSLATOR tie (additional, every run): the SOURCE TEXT of _broadcast_elem, Unknown/Constant.__le__, Shape.__le__ and the four "
+         "_subtype methods is translated to Gallina (harness/pysrc.py, fail-closed) and coq/gen/SrcFacts.v proves, for ALL arguments, that the "
+         "generated functions are the model's bce / dim_le / shape_le / subtype. ORACLE: numpy.broadcast_shapes, brute-force common-value search, real inline boundary.",
+    note=TB + "hash is oracle-only; exhaustive for the stated bounded domain. The translator (accepted Python subset, the rendering of ==, <=, "
+         "isinstance, issubclass on canonical scalar types as code equality, attribute access totalised behind the source's own guards, the dropped "
+         "`isinstance(other, Class)` guards) is trusted; a source text outside its subset leaves the exhaustive correspondence as the only tie "
+         "(recorded in the evidence).",
+    technique="Coq proof + exhaustive digest correspondence over a bounded domain + source-to-Gallina translator with equivalence theorems + regenerated spelling table",
     ref="4 C13"),
  "C14": dict(
     text="PROOF (coq/props/C14.v): exactly one definition per used (domain, name) incl. functions used only in control-flow bodies or "
